@@ -13,7 +13,9 @@ class Ret(Exception):
 
 
 class PieceEval:
-    def __init__(self, func, args):
+    def __init__(self, func, args, members=None, stubs=None):
+        self.stubs = stubs or {}
+        self._members = members or {}
         """args: parameter name -> int | list (vector of ints, also used for output vectors)"""
         self.f = func
         self.env = {}
@@ -25,6 +27,8 @@ class PieceEval:
             elif v is not None:
                 self.env[p['id']] = evalx.wrap(int(v), p['t'].replace('&', '').strip())
         self.types = {p['id']: p['t'].replace('&', '').strip() for p in func['params']}
+        for k, v in self._members.items():
+            self.env[('m', k)] = v
 
     def call(self, e, env):
         k = e.get('k')
@@ -38,6 +42,8 @@ class PieceEval:
                 return v[idx]
         if k == 'mcall' and e['f'].split('::')[-1] in ('size', 'length') and e['o'].get('k') == 'var' and e['o']['id'] in self.vec:
             return len(self.vec[e['o']['id']])
+        if k == 'call' and e.get('f') in self.stubs:
+            return self.stubs[e['f']]
         raise evalx.NotEvaluable('call ' + e.get('f', '?'))
 
     def ev(self, e):
@@ -65,11 +71,15 @@ class PieceEval:
         elif k == 'bin' and s.get('op') == '=' and s['a'][0].get('k') == 'var':
             vid = s['a'][0]['id']
             self.env[vid] = evalx.wrap(self.ev(s['a'][1]), self.types.get(vid, s['a'][0].get('t')))
+        elif k == 'bin' and s.get('op') == '=' and s['a'][0].get('k') == 'mem':
+            self.env[('m', s['a'][0]['n'])] = self.ev(s['a'][1])
         elif k == 'bin' and s.get('op') == ',':
             self.stmt(s['a'][0])
             self.stmt(s['a'][1])
         elif k == 'mcall' and s['f'].split('::')[-1] == 'push_back' and s['o'].get('k') == 'var' and s['o']['id'] in self.vec:
             self.vec[s['o']['id']].append(evalx.wrap(self.ev(s['a'][0]), 'unsigned char'))
+        elif k == 'opcall' and s.get('op') == '<<':
+            pass        # diagnostics
         elif k in ('for', 'while', 'do', 'forrange', 'switch', 'try'):
             raise evalx.NotEvaluable('not a loop-free definition: ' + k)
         else:
